@@ -96,6 +96,7 @@ const (
 	OpFLt
 	OpFLe
 	OpFIsNaN
+	OpFRound // C: 0 RNA (math.Round) 1 RTN (Floor) 2 RTP (Ceil) 3 RTZ (Trunc) 4 RNE (RoundToEven)
 	OpSToFP  // signed bv -> fp (RNE)
 	OpUToFP  // unsigned bv -> fp (RNE)
 	OpFToSBV // fp -> signed bv RTZ (width in sort)
@@ -1151,6 +1152,25 @@ func (c *TermCtx) FUn(op Op, a *Term) *Term {
 	return c.mk(op, s, 0, "", a)
 }
 
+func (c *TermCtx) FRound(a *Term, mode uint64) *Term {
+	if a.IsConst() {
+		x := math.Float64frombits(a.C)
+		switch mode {
+		case 0:
+			return c.FConst(math.Round(x))
+		case 1:
+			return c.FConst(math.Floor(x))
+		case 2:
+			return c.FConst(math.Ceil(x))
+		case 3:
+			return c.FConst(math.Trunc(x))
+		default:
+			return c.FConst(math.RoundToEven(x))
+		}
+	}
+	return c.mk(OpFRound, SFP, mode, "", a)
+}
+
 func (c *TermCtx) IntToFP(a *Term, signed bool) *Term {
 	if a.IsConst() {
 		if signed {
@@ -1238,6 +1258,8 @@ func (t *Term) body() string {
 		return fmt.Sprintf("((_ sign_extend %d) %s)", t.S.W-t.A[0].S.W, a(0))
 	case OpConstArr:
 		return fmt.Sprintf("((as const %s) %s)", t.S.SMT(), (&Term{Op: OpConst, S: BV(t.S.EW), C: t.C}).ref())
+	case OpFRound:
+		return fmt.Sprintf("(fp.roundToIntegral %s %s)", [...]string{"RNA", "RTN", "RTP", "RTZ", "RNE"}[t.C], a(0))
 	case OpSToFP:
 		return fmt.Sprintf("((_ to_fp 11 53) RNE %s)", a(0))
 	case OpUToFP:
@@ -1431,6 +1453,21 @@ func (e *Evaluator) Eval(t *Term) uint64 {
 	case OpFIsNaN:
 		x := math.Float64frombits(e.Eval(t.A[0]))
 		v = b2u(x != x)
+	case OpFRound:
+		x := math.Float64frombits(e.Eval(t.A[0]))
+		switch t.C {
+		case 0:
+			x = math.Round(x)
+		case 1:
+			x = math.Floor(x)
+		case 2:
+			x = math.Ceil(x)
+		case 3:
+			x = math.Trunc(x)
+		default:
+			x = math.RoundToEven(x)
+		}
+		v = math.Float64bits(x)
 	case OpFEq, OpFLt, OpFLe:
 		x, y := math.Float64frombits(e.Eval(t.A[0])), math.Float64frombits(e.Eval(t.A[1]))
 		switch t.Op {
